@@ -1,13 +1,21 @@
 // Package c24: committed data satisfies the declared constraints (property C24).
-// t(pk primary key, a, b) with UNIQUE KEY ua(a) and CHECK (a <= b); C23 schedules
-// (several sessions, DML, COMMIT / ROLLBACK) whose transactions are each valid but
-// whose combination need not be. After every statement that can change the
-// committed state the committed table is dumped by an independent session.
+//
+//	p(pk primary key, a int NOT NULL, b int)
+//	t(pk primary key, a int, b int, UNIQUE KEY ua(a), CHECK (a <= b), FOREIGN KEY (b) REFERENCES p(pk))
+//
+// Keys >= 100 in a case address table p (pk = key-100), keys < 100 table t.
+// Mode "txn": C23 schedules (several sessions, DML, COMMIT / ROLLBACK) whose transactions are each
+// valid but whose combination need not be; after every statement the committed tables are
+// dumped by an independent reader.  A session listed in "nofk" runs with foreign_key_checks = 0.
+// Mode "merge": two branches get one batch of DML each (committed), then main merges the other
+// branch with @@dolt_force_transaction_commit = 1; the merged tables and the rows of
+// dolt_constraint_violations_t / _p are reported.
 package c24
 
 import (
 	"encoding/json"
 	"fmt"
+	"strings"
 
 	"verifharness/c23"
 	"verifharness/hk"
@@ -16,40 +24,117 @@ import (
 
 func init() { hk.Register("c24", Run) }
 
+type Case struct {
+	c23.Case
+	NoFK  []int   `json:"nofk"`  // sessions with foreign_key_checks = 0
+	Mode  string  `json:"mode"`  // "" / "txn" | "merge"
+	Left  [][]int `json:"left"`  // merge mode: statements [_, kind, x, y, z] applied on main
+	Right [][]int `json:"right"` // merge mode: statements applied on branch b1
+}
+
 type Obs struct {
 	Steps     []sqlsched.StepObs `json:"steps"`
-	Committed [][][]int          `json:"committed"` // committed table after each step
+	Committed [][][]int          `json:"committed"` // committed tables after each step (keys of p shifted by 100)
 	Viol      []int              `json:"viol"`      // rows in dolt_constraint_violations after each step
+	// merge mode
+	MergeErr int     `json:"mergeerr"`
+	Merged   [][]int `json:"merged"`  // tables after the merge
+	VRows    [][]int `json:"vrows"`   // recorded violations: [type, key]; type 1 fk, 2 unique, 3 check, 4 not null
+	Msg      string  `json:"msg,omitempty"`
+}
+
+const PBase = 100
+
+var cols = []string{"a", "b"}
+
+func tbl(k int) (string, int) {
+	if k >= PBase {
+		return "p", k - PBase
+	}
+	return "t", k
+}
+
+const dumpQ = "SELECT pk, a, b FROM t UNION ALL SELECT pk + 100, a, b FROM p"
+
+func Render(st []int) string {
+	x, y, z := st[2], st[3], st[4]
+	tn, pk := tbl(x)
+	switch st[1] {
+	case c23.KBegin:
+		return "BEGIN"
+	case c23.KCommit:
+		return "COMMIT"
+	case c23.KRollback:
+		return "ROLLBACK"
+	case c23.KSelect:
+		return dumpQ
+	case c23.KInsert:
+		return fmt.Sprintf("INSERT INTO %s VALUES (%d, %s, %s)", tn, pk, sqlsched.V(y), sqlsched.V(z))
+	case c23.KUpdate:
+		return fmt.Sprintf("UPDATE %s SET %s = %s WHERE pk = %d", tn, cols[y%2], sqlsched.V(z), pk)
+	case c23.KDelete:
+		return fmt.Sprintf("DELETE FROM %s WHERE pk = %d", tn, pk)
+	case c23.KUpdAdd:
+		return fmt.Sprintf("UPDATE %s SET %s = %s + %d WHERE pk = %d", tn, cols[y%2], cols[y%2], z, pk)
+	case c23.KSelectKey:
+		if tn == "p" {
+			return fmt.Sprintf("SELECT pk + 100, a, b FROM p WHERE pk = %d", pk)
+		}
+		return fmt.Sprintf("SELECT pk, a, b FROM t WHERE pk = %d", pk)
+	}
+	return "SELECT 'bad kind'"
+}
+
+func setup(c *Case) []string {
+	s := []string{
+		"CREATE TABLE p (pk int primary key, a int NOT NULL, b int)",
+		"CREATE TABLE t (pk int primary key, a int, b int, UNIQUE KEY ua (a), CONSTRAINT ck CHECK (a <= b), CONSTRAINT fk FOREIGN KEY (b) REFERENCES p (pk))",
+	}
+	// parents first
+	for _, r := range c.Init {
+		if r[0] >= PBase {
+			s = append(s, fmt.Sprintf("INSERT INTO p VALUES (%d, %s, %s)", r[0]-PBase, sqlsched.V(r[1]), sqlsched.V(r[2])))
+		}
+	}
+	for _, r := range c.Init {
+		if r[0] < PBase {
+			s = append(s, fmt.Sprintf("INSERT INTO t VALUES (%d, %s, %s)", r[0], sqlsched.V(r[1]), sqlsched.V(r[2])))
+		}
+	}
+	return append(s, "CALL dolt_commit('-Am', 'init')")
 }
 
 func Run(raw json.RawMessage) (any, error) {
-	var c c23.Case
+	var c Case
 	if err := json.Unmarshal(raw, &c); err != nil {
 		return nil, err
 	}
-	setup := []string{"CREATE TABLE t (pk int primary key, a int, b int, UNIQUE KEY ua (a), CONSTRAINT ck CHECK (a <= b))"}
-	for _, r := range c.Init {
-		setup = append(setup, fmt.Sprintf("INSERT INTO t VALUES (%d, %s, %s)", r[0], sqlsched.V(r[1]), sqlsched.V(r[2])))
+	if c.Mode == "merge" {
+		return runMerge(&c)
 	}
-	setup = append(setup, "CALL dolt_commit('-Am', 'init')")
-	w, err := sqlsched.NewWorld(c.NSess, setup, c.Autos...)
+	w, err := sqlsched.NewWorld(c.NSess, setup(&c), c.Autos...)
 	if err != nil {
 		return nil, err
 	}
 	defer w.Close()
+	for _, s := range c.NoFK {
+		if err := w.Sess[s].MustExec("SET foreign_key_checks = 0", "ROLLBACK"); err != nil {
+			return nil, err
+		}
+	}
 	f, err := w.Fresh()
 	if err != nil {
 		return nil, err
 	}
 	var o Obs
 	for _, st := range c.Steps {
-		so := sqlsched.Exec(w.Sess[st[0]], c23.Render(st))
+		so := sqlsched.Exec(w.Sess[st[0]], Render(st))
 		if !c.Raw {
 			so.Msg = ""
 		}
 		o.Steps = append(o.Steps, so)
 		f.Exec("ROLLBACK") // drop the reader's snapshot: read the committed state as of now
-		fo := sqlsched.Exec(f, "SELECT pk, a, b FROM t")
+		fo := sqlsched.Exec(f, dumpQ)
 		if fo.Err != 0 {
 			return nil, fmt.Errorf("committed read: %s", fo.Msg)
 		}
@@ -62,4 +147,95 @@ func Run(raw json.RawMessage) (any, error) {
 		o.Viol = append(o.Viol, n)
 	}
 	return o, nil
+}
+
+// violation_type is an enum: 1 foreign key, 2 unique index, 3 check constraint, 4 not null
+func vtype(s string) int {
+	switch {
+	case s == "i:1", strings.Contains(s, "foreign"):
+		return 1
+	case s == "i:2", strings.Contains(s, "unique"):
+		return 2
+	case s == "i:3", strings.Contains(s, "check"):
+		return 3
+	case s == "i:4", strings.Contains(s, "null"):
+		return 4
+	}
+	return 9
+}
+
+func runMerge(c *Case) (any, error) {
+	st := setup(c)
+	st = append(st, "CALL dolt_branch('b1')")
+	w, err := sqlsched.NewWorld(0, st)
+	if err != nil {
+		return nil, err
+	}
+	defer w.Close()
+	s, err := w.Fresh() // autocommit session
+	if err != nil {
+		return nil, err
+	}
+	var o Obs
+	apply := func(stmts [][]int) {
+		for _, x := range stmts {
+			so := sqlsched.Exec(s, Render(x))
+			if !c.Raw {
+				so.Msg = ""
+			}
+			so.Rows = [][]int{}
+			o.Steps = append(o.Steps, so)
+		}
+	}
+	apply(c.Left)
+	if err := s.MustExec("CALL dolt_commit('-A', '--allow-empty', '-m', 'left')", "CALL dolt_checkout('b1')"); err != nil {
+		return nil, err
+	}
+	apply(c.Right)
+	if err := s.MustExec("CALL dolt_commit('-A', '--allow-empty', '-m', 'right')", "CALL dolt_checkout('main')", "SET @@dolt_force_transaction_commit = 1"); err != nil {
+		return nil, err
+	}
+	m := s.Exec("CALL dolt_merge('b1')")
+	if m.Err != "" {
+		o.MergeErr = sqlsched.Classify(m.Err)
+		if o.MergeErr == 0 {
+			o.MergeErr = 3
+		}
+		o.Msg = m.Err
+	}
+	// conflicts make the merge a different story: report them as merge error 5
+	cf := sqlsched.Exec(s, "SELECT count(*) FROM dolt_conflicts")
+	if cf.Err == 0 && len(cf.Rows) == 1 && cf.Rows[0][0] > 0 {
+		o.MergeErr = 5
+	}
+	fo := sqlsched.Exec(s, dumpQ)
+	if fo.Err != 0 {
+		return nil, fmt.Errorf("merged read: %s", fo.Msg)
+	}
+	o.Merged = fo.Rows
+	o.VRows = [][]int{}
+	for _, tn := range []string{"t", "p"} {
+		r := s.Exec("SELECT violation_type, pk FROM dolt_constraint_violations_" + tn)
+		if r.Err != "" {
+			continue // no violations table rows for this table
+		}
+		for _, row := range r.Rows {
+			ir, _, _ := sqlsched.IntRows([][]string{{row[1]}})
+			k := ir[0][0]
+			if tn == "p" {
+				k += PBase
+			}
+			o.VRows = append(o.VRows, []int{vtype(strings.ToLower(row[0])), k})
+		}
+	}
+	sortPairs(o.VRows)
+	return o, nil
+}
+
+func sortPairs(p [][]int) {
+	for i := 1; i < len(p); i++ {
+		for j := i; j > 0 && (p[j][0] < p[j-1][0] || (p[j][0] == p[j-1][0] && p[j][1] < p[j-1][1])); j-- {
+			p[j], p[j-1] = p[j-1], p[j]
+		}
+	}
 }
